@@ -43,7 +43,7 @@ EXPECTED_PROBES = [f"fault_cut_{c}_{k}" for c in CUT_CLASSES for k in ("fin", "r
     "probe_retry_path", "probe_server_error", "probe_server_shutdown", "probe_peer_push_handled", "probe_cut_with_calls_pending",
     "probe_big_response", "probe_big_request", "probe_unencodable_request", "probe_broken_on_error_ran",
     "probe_many_unencodable_requests_then_a_call", "net_cut_timeout", "probe_two_connections", "line_preemptions_hot", "probe_bidirectional", "probe_reverse_call",
-    "probe_server_initiated_close"]
+    "probe_server_initiated_close", "net_stall"]
 WALL_CAP = {"quick": 400, "thorough": 3600}
 
 
@@ -88,7 +88,7 @@ def scenario(ch, cfg):
     ncalls = [1 + ch.weighted([3, 2, 1], "ncalls") for _ in range(ncallers)]
     total_calls = sum(ncalls)
     # ---- fault plan
-    fkinds = ["none", "cut", "cut", "cut", "close-race"]
+    fkinds = ["none", "cut", "cut", "cut", "close-race", "stall"]
     if peer_kind == "real":
         fkinds += ["server-error", "server-shutdown", "connect-first"]
     else:
@@ -97,6 +97,12 @@ def scenario(ch, cfg):
     if fault == "cut":
         env.cut_plan = {"direction": ch.weighted([1, 3], "cut.dir"), "frame": ch.draw(total_calls + 1, "cut.frame"),
                         "cls": ch.pick(CUT_CLASSES, "cut.cls"), "kind": ch.pick(["fin", "rst", "fin", "rst", "timeout"], "cut.kind"), "cid": 0}
+    if fault == "stall":
+        # the path goes silent in the middle of a frame for a while and then continues: a delay, not a loss - every call
+        # still gets its own answer (nothing in the protocol has a deadline; a change that adds one must survive this)
+        env.cut_plan = {"direction": ch.weighted([1, 3], "cut.dir"), "frame": ch.draw(total_calls + 1, "cut.frame"),
+                        "cls": ch.pick(CUT_CLASSES[1:7], "cut.cls"), "kind": "stall", "cid": 0,
+                        "stall_for": ch.pick([0.4, 1.5, 2.5, 8.0, 40.0], "stall.for")}
     if peer_kind == "scripted":
         env.peer.push_budget = (1 + ch.draw(2, "npush")) if fault == "push" else 0
 
@@ -335,7 +341,7 @@ def scenario(ch, cfg):
             if bidir and close_side:
                 # the server closes this connection through its handle (what its shutdown event does): the same
                 # handshake, started from the other end
-                stats["probe_server_initiated_close"] += 1
+                stats["probe_server_initiated_close", "net_stall"] += 1
                 ncs[1].close()
             else:
                 nc.close()
@@ -399,7 +405,7 @@ def scenario(ch, cfg):
             if only_conn0:
                 viol("C14:failure-leaked-to-other-connection", f"call {rec['caller']}.{rec['idx']} {rec['msg']} on the second client's own connection raised "
                      f"{oc[1]}: {oc[2]} although the fault ({fault}) concerned the first connection only")
-        if oc[0] == "exc" and fault in ("none", "push", "connect-first") and exp not in ("error", "must-fail"):
+        if oc[0] == "exc" and fault in ("none", "push", "connect-first", "stall") and exp not in ("error", "must-fail"):
             # nothing was injected that could excuse a failure: the call must return its answer
             viol(f"C14:call-raised-without-fault:{oc[1]}", f"call {rec['caller']}.{rec['idx']} {rec['msg']} raised {oc[1]}: {oc[2]} in a run without any injected fault ({fault})")
         if oc[0] == "ok":
